@@ -21,9 +21,9 @@ taskTime / deferred queue / trigger):
              {install at T, install after D, suspend, resume, re-install,
              advance D by run_once, advance D by run} on 4 tasks, up to renaming
              of tasks (first-use order); every time collides (T = base + D).
-             Thorough: complete up to length 6; of length 7 the histories that end
-             in an advance (the others have the firing log of their length-6
-             prefix, which is enumerated)
+             Complete up to length 5 (quick) / 6 (thorough); of length 6 / 7 the
+             histories that end in an advance (the others have the firing log of
+             their prefix, which is enumerated)
   random   : histories of length 200 over 6 tasks of mixed classes (raising
              bodies, deferring bodies, recurring with refused parameters, ...)
   grid     : recurring interval x offset x phase grid incl. 0.1, 0.3, 1/3 s,
@@ -46,8 +46,8 @@ from . import core
 LEAN_TARGETS = ["BacVerif.Props.C14", "drv_c14"]
 LEANCHECKER = ["BacVerif.Props.C14"]
 LEVEL = "proof"
-RULE = ("dfs: all histories up to length 5 (quick) / 7 (thorough; length 7 = those ending in an advance, "
-        "the rest share the firing log of their enumerated length-6 prefix) over 5 task operations x "
+RULE = ("dfs: all histories up to length 5 (quick) / 6 (thorough) plus those of length 6 / 7 that end in an "
+        "advance (the rest share the firing log of their enumerated prefix) over 5 task operations x "
         "4 tasks (canonical task naming) + 2 ways to advance time, colliding times; random: length-200 "
         "histories over 12 operation kinds; grid: recurring interval/offset/phase/clock-magnitude "
         "grid incl. 0.1, 0.3, 1/3 s; deferred: all raising subsets of batches <= 6 in 4 shapes x 2 "
@@ -737,12 +737,12 @@ def shard_dfs(ctx, spec):
 
 
 def run_dfs(ctx, L, last_adv=False):
-    depth = 2 if L <= 5 else 3
+    depth = 2 if L <= 6 else 3
     pre = dfs_prefixes(depth)
     # shorter histories are the inner nodes of the subtrees, except those shorter than the
     # prefixes: cover them with one extra subtree rooted at the empty history cut at `depth`
     specs = []
-    nshard = 64 if L > 5 else 32
+    nshard = 64 if L > 6 else 32
     for i in range(nshard):
         chunk = pre[i::nshard]
         if chunk:
@@ -957,8 +957,8 @@ def run(ctx):
     run_scenarios(ctx, "deferred", deferred_scenarios(ctx))
     run_scenarios(ctx, "grid", grid_scenarios(ctx, rng))
     if ctx.quick:
-        core.run_shards(ctx, "harness.c14", "shard_random", [("q%d" % i, 8, 200) for i in range(16)])
-        run_dfs(ctx, 5)
+        core.run_shards(ctx, "harness.c14", "shard_random", [("q%d" % i, 25, 200) for i in range(16)])
+        run_dfs(ctx, 6, last_adv=True)
     else:
         core.run_shards(ctx, "harness.c14", "shard_random", [("t%d" % i, 150, 200) for i in range(64)])
         run_dfs(ctx, 7, last_adv=True)
